@@ -931,6 +931,7 @@ func lexSetterOf(p *Prog, fd *ast.FuncDecl, depth int) *lexSetter {
 		param int // -2: unconditional at this node; >=0: call passes own bool parameter
 	}
 	var rule, mode, both []cond
+	ruleTargets, modeTargets := map[types.Object]bool{}, map[types.Object]bool{}
 	badShared := ""
 	for _, b := range f.G.Blocks {
 		if !b.Live {
@@ -948,12 +949,20 @@ func lexSetterOf(p *Prog, fd *ast.FuncDecl, depth int) *lexSetter {
 						if mentions(x.Rhs[li], "ArrayValidationModeLexicalOrdering") && (x.Tok == token.OR_ASSIGN || x.Tok == token.ASSIGN) {
 							if freshTarget(l) {
 								rule = append(rule, cond{pt, -2})
+								if se, ok := ast.Unparen(l).(*ast.SelectorExpr); ok {
+									if o := objOfIdent(info, se.X); o != nil {
+										ruleTargets[o] = true
+									}
+								}
 							} else {
 								badShared = f.P.posStr(x.Pos()) + ": the ordering bit is set through rules that are shared with other users of the type settings"
 							}
 						}
 						if mentions(x.Rhs[li], "DeSeriModePerformLexicalOrdering") && (x.Tok == token.OR_ASSIGN || x.Tok == token.ASSIGN) {
 							mode = append(mode, cond{pt, -2})
+							if o := objOfIdent(info, l); o != nil {
+								modeTargets[o] = true
+							}
 						}
 					}
 				case *ast.CallExpr:
@@ -993,6 +1002,45 @@ func lexSetterOf(p *Prog, fd *ast.FuncDecl, depth int) *lexSetter {
 		res.why = badShared
 		return res
 	}
+	// a bit that was set is lost again when the variable that carries it is overwritten as a whole
+	// afterwards (`*rules = *registered` after `rules.ValidationMode |= bit`): the points after such
+	// an overwrite are further starting points from which a setter must still be passed
+	var ruleKills, modeKills []Point
+	for _, b := range f.G.Blocks {
+		if !b.Live {
+			continue
+		}
+		for i, nd := range b.Nodes {
+			as, ok := nd.(*ast.AssignStmt)
+			if !ok || (as.Tok != token.ASSIGN && as.Tok != token.DEFINE) {
+				continue
+			}
+			for li, l := range as.Lhs {
+				var rhs ast.Expr
+				if li < len(as.Rhs) && len(as.Lhs) == len(as.Rhs) {
+					rhs = as.Rhs[li]
+				}
+				l = ast.Unparen(l)
+				whole := l
+				if st, isStar := l.(*ast.StarExpr); isStar {
+					whole = ast.Unparen(st.X)
+				}
+				if o := objOfIdent(info, whole); o != nil {
+					if ruleTargets[o] && as.Tok == token.ASSIGN && !(rhs != nil && mentions(rhs, "ArrayValidationModeLexicalOrdering")) {
+						ruleKills = append(ruleKills, Point{b, i + 1})
+					}
+					if modeTargets[o] && as.Tok == token.ASSIGN && !(rhs != nil && mentions(rhs, "DeSeriModePerformLexicalOrdering")) {
+						modeKills = append(modeKills, Point{b, i + 1})
+					}
+				}
+				if se, isSel := l.(*ast.SelectorExpr); isSel && se.Sel.Name == "ValidationMode" && as.Tok == token.ASSIGN {
+					if o := objOfIdent(info, se.X); o != nil && ruleTargets[o] && !(rhs != nil && mentions(rhs, "ArrayValidationModeLexicalOrdering")) {
+						ruleKills = append(ruleKills, Point{b, i + 1})
+					}
+				}
+			}
+		}
+	}
 	// under which condition are the bits set on every non-failing path?
 	try := func(param int) bool {
 		// edges on which the parameter is true (param >= 0), else no restriction
@@ -1009,13 +1057,25 @@ func lexSetterOf(p *Prog, fd *ast.FuncDecl, depth int) *lexSetter {
 			}
 			return func(n ast.Node) bool { return pts[n] }
 		}
-		okBit := func(set []cond) bool {
+		okBit := func(set []cond, kills []Point) bool {
 			pred := covered(append(append([]cond{}, set...), both...))
 			starts := []Point{f.entry()}
 			if param >= 0 && len(on) > 0 {
 				starts = nil
 				for _, e := range on {
 					starts = append(starts, Point{e.From.Succs[e.Succ], 0})
+				}
+			}
+			for _, k := range kills {
+				// only overwrites that can follow a setter matter (an initialisation before it does not)
+				after := false
+				for _, c := range set {
+					if _, reaches := f.reach(Point{c.pt.B, c.pt.I + 1}, nil, func(q Point, atExit bool) bool { return !atExit && q.B == k.B && q.I == k.I-1 }); reaches {
+						after = true
+					}
+				}
+				if after {
+					starts = append(starts, k)
 				}
 			}
 			for _, st := range starts {
@@ -1031,7 +1091,7 @@ func lexSetterOf(p *Prog, fd *ast.FuncDecl, depth int) *lexSetter {
 			}
 			return true
 		}
-		return okBit(rule) && okBit(mode)
+		return okBit(rule, ruleKills) && okBit(mode, modeKills)
 	}
 	if try(-1) {
 		res.uncond, res.why = true, ""
